@@ -1144,10 +1144,12 @@ struct sMasterConnection {
     CS104_Slave slave;
 
     MasterConnectionState state;
-    unsigned int isUsed:1;
-    unsigned int isRunning:1;
-    unsigned int timeoutT2Triggered:1;
-    unsigned int waitingForTestFRcon:1;
+    /* separate objects, not bit-fields of one storage unit: isUsed / isRunning are accessed by several threads under stateLock,
+     * the other two are written by the connection thread without it -- a bit-field write rewrites the neighbouring flags */
+    bool isUsed;
+    bool isRunning;
+    bool timeoutT2Triggered;
+    bool waitingForTestFRcon;
     uint16_t maxSentASDUs; /* k-parameter */
     int16_t  oldestSentASDU; /* oldest sent ASDU in k-buffer */
     int16_t  newestSentASDU; /* newest sent ASDU in k-buffer */
